@@ -28,7 +28,10 @@ class DefaultSettings(MagicProperties):
 
     def reset(self):
         """Resets all nested properties to their hard coded default values"""
-        self.update(get_defaults_dict(), _match_properties=False)
+        # rebuild from the hard coded defaults; merging them into the current settings would keep
+        # every user-set property that the defaults dictionary does not mention
+        for key, val in get_defaults_dict().items():
+            setattr(self, key, val)
         return self
 
     @property
